@@ -1,6 +1,9 @@
-/- C33 driver: `C33 run <kind> <initial> <t0> [op,…]` (Model), `C33 spec <kind> <initial> [op,…]` (Spec) -/
+/- C33 driver: `C33 run <kind> <initial> <t0> [op,…]` (Model), `C33 spec <kind> <initial> [op,…]` (Spec),
+   `C33 trun <kind> <initial> <t0> [top,…]` (Tasks: context-manager paths; top = [call,[sub,…]] | [fire] | [race,[sub,…]]),
+   `C33 lift <kind> <initial> <t0> [op,…]` (the Model ops run through the Tasks layer) -/
 import TornadoModel.Base.Wire
 import TornadoModel.C33.Spec
+import TornadoModel.C33.Tasks
 namespace TornadoModel.C33.Drv
 open TornadoModel TornadoModel.Wire TornadoModel.C33
 
@@ -46,6 +49,46 @@ def encOut (o : Out) : V :=
 
 def encSpecOut (o : Spec.Out) : V := .list [encRes o.res, .list (o.evs.map encEv)]
 
+open Tasks in
+def decSub (v : V) : Option Sub := do
+  let l ← v.list?
+  match l with
+  | [.atom "acq", d] => pure (.acquire (← decDeadline d))
+  | [.atom "rel"] => pure .release
+  | [.atom "relCm", w] => pure (.releaseCm (← w.nat?))
+  | [.atom "cancel", w] => pure (.cancel (← w.nat?))
+  | [.atom "spawnAw"] => pure .spawnAw
+  | [.atom "spawnLg", d] => pure (.spawnLegacy (← decDeadline d))
+  | [.atom "exit", t] => pure (.exit (← t.nat?))
+  | [.atom "tcancel", t] => pure (.tcancel (← t.nat?))
+  | [.atom "soonTcancel", t] => pure (.soonTcancel (← t.nat?))
+  | _ => none
+
+open Tasks in
+def decTOp (v : V) : Option TOp := do
+  let l ← v.list?
+  match l with
+  | [.atom "call", subs] => pure (.call (← (← subs.list?).mapM decSub))
+  | [.atom "fire"] => pure .fire
+  | [.atom "race", subs] => pure (.race (← (← subs.list?).mapM decSub))
+  | _ => none
+
+open Tasks in
+def encPhase : Phase → V
+  | .fresh => .atom "F"
+  | .waiting _ => .atom "W"
+  | .inside _ => .atom "I"
+  | .finished .ok => .atom "OK"
+  | .finished .cancelled => .atom "C"
+  | .finished .timeout => .atom "TO"
+  | .finished .valueError => .atom "VE"
+  | .finished .runtimeError => .atom "RE"
+
+open Tasks in
+def encTOut (o : TOutp) : V :=
+  .list [.list (o.res.map encRes), .list (o.evs.map encEv), .list (o.enters.map (fun t => V.int (Int.ofNat t))), .int o.value,
+         .int o.nwaiters, .int o.timeouts, .int o.ntimers, .list (o.phases.map encPhase)]
+
 def handle (toks : List String) : String :=
   match toks.mapM V.parse with
   | none => err "bad-arg"
@@ -61,6 +104,18 @@ def handle (toks : List String) : String :=
       match decKind k, n.nat?, ops.list? >>= (·.mapM decOp) with
       | some k, some n, some ops => ok [.list ((Spec.run (Spec.init k n) ops).2.map encSpecOut)]
       | _, _, _ => err "bad-op"
+    | [.atom "trun", k, n, t0, ops] =>
+      match decKind k, n.nat?, t0.nat?, ops.list? >>= (·.mapM decTOp) with
+      | some k, some n, some t0, some ops =>
+        let (s, outs) := Tasks.trun (Tasks.tinit k n t0) ops
+        ok [.list (outs.map encTOut), .list (s.base.futs.map encF)]
+      | _, _, _, _ => err "bad-op"
+    | [.atom "lift", k, n, t0, ops] =>
+      match decKind k, n.nat?, t0.nat?, ops.list? >>= (·.mapM decOp) with
+      | some k, some n, some t0, some ops =>
+        let (s, outs) := Tasks.trun (Tasks.tinit k n t0) (ops.map Tasks.liftOp)
+        ok [.list (outs.map encTOut), .list (s.base.futs.map encF)]
+      | _, _, _, _ => err "bad-op"
     | _ => err "bad-cmd"
 
 end TornadoModel.C33.Drv
